@@ -7,7 +7,7 @@ from proto import T
 
 RULE = ('random valid tables (0-6 entries, keys of 1-3 words, aliases of 1-4 words, some with parentheses, names containing '
         'and/or/with, shared leading/trailing words, letters whose lower case is longer) x texts of 1-12 items (name variants in '
-        'random case with random Unicode blank runs, operators, parentheses, unknown words), default and simple tokenizer, strict '
+        'random case with random Unicode blank runs, operators, parentheses, unknown words; one case in four: a grammar-derived expression after 1-2 token edits - near-valid, sometimes still accepted), default and simple tokenizer, strict '
         'and not; compared: the (kind, symbol, words) triples of Licensing.tokenize and the parse outcome with the model; Spec '
         '(in Lean, on the implementation triples): word concatenation, every token stands for its words, literals of the tree = '
         'license tokens in order; non-trivial = tokenize succeeded with >= 2 tokens; distinct by (table, text, flags)')
@@ -15,7 +15,20 @@ ASSUMPTIONS = ['the table passes Licensing() validation; per-character lower-cas
 
 
 class Prop(BaseProp):
+    def case_near_valid(self, rng):
+        """a grammar-derived expression over a small table after 1-2 token edits (a parenthesised group, a WITH pair or an
+        operand inserted, deleted, doubled, swapped): mostly malformed, sometimes still accepted - and whenever it is
+        accepted every word and every license must be accounted for"""
+        table = [['gpl', ['gnu gpl'], False], ['mit', [], False], ['cpe', [], True]]
+        t = gen.gen_tree(rng, ['gpl', 'mit', 'cpe', 'foo', 'gnu gpl'], depth=rng.randint(1, 3), maxar=3, with_p=0.3, flags=False)
+        toks = gen.mutate_tokens(rng, gen.tree_tokens(rng, t), ['gpl', 'mit', 'cpe', 'foo', 'and', 'or', 'with', '(', ')'])
+        if rng.random() < 0.3:
+            toks = ['('] + toks + [')']
+        return {'table': table, 'text': ' '.join(toks), 'simple': rng.random() < 0.3, 'strict': False}
+
     def case_random(self, rng):
+        if rng.random() < 0.25:
+            return self.case_near_valid(rng)
         table = gen.gen_table(rng)
         text = gen.gen_text(rng, table, bad=0.02)
         return {'table': table, 'text': text, 'simple': rng.random() < 0.3, 'strict': rng.random() < 0.3}
